@@ -112,6 +112,8 @@ class SymArray:
         if isinstance(o, Cat):
             return NotImplemented
         if isinstance(o, SymArray):
+            if self.ndim == o.ndim == 2 and o.shape[1].concrete() == 1 and self.shape[1].concrete() != 1:
+                return SymArray(self.shape, lambda i, k: f(self.at(i, k), o.at(i, SI(0))), self.guard)      # (n,m) op (n,1)
             if self.ndim == o.ndim:
                 _shape_ob(self.shape, o.shape)
                 g = _and_guard(self.guard, o.guard)
@@ -158,6 +160,28 @@ class SymArray:
     def copy(self):
         return SymArray(self.shape, self._fn, self.guard, self.kind)
 
+    def squeeze(self):
+        """numpy squeeze: drops axes of length 1 (only decidable when every axis length is concrete or provably > 1)"""
+        keep = []
+        for d, n in enumerate(self.shape):
+            v = n.concrete()
+            if v == 1:
+                continue
+            if v is None and not sym.quick_prove(sym.ctx().hyps(), n.e != 1, 500):
+                # a symbolic axis that may be 1: numpy would drop it only in that case; keep it and say so
+                sym.ctx().ghost.setdefault("squeeze_assumes_not_one", []).append(n)
+            keep.append(d)
+        if len(keep) == self.ndim:
+            return self
+        src = self
+
+        def fn(*idx):
+            full = [SI(0)] * src.ndim
+            for j, d in enumerate(keep):
+                full[d] = idx[j]
+            return src.at(*full)
+        return SymArray(tuple(self.shape[d] for d in keep), fn, self.guard, self.kind)
+
     def astype(self, t):
         return self
 
@@ -167,6 +191,8 @@ class SymArray:
     # ---- indexing
     def __getitem__(self, key):
         if isinstance(key, tuple):
+            if len(key) == 2 and self.ndim == 1 and isinstance(key[0], slice) and key[0] == slice(None) and key[1] is None:
+                return SymArray((self.shape[0], SI(1)), lambda i, k: self.at(i), self.guard, self.kind)      # a[:, np.newaxis]
             if len(key) == 2 and self.ndim == 2:
                 a, b = key
                 if isinstance(a, slice) and a == slice(None) and isinstance(b, (int, SI)):
